@@ -140,7 +140,7 @@ Proof. vm_compute. repeat split; reflexivity. Qed.
 
 (* ---- the boundary of the domain (why the hypotheses are there) ---- *)
 (* bytes >= CHAR_MAX behind the key fall outside [k, k.CHAR_MAX]: the option "caf\xe9" is not found by its prefix "caf" *)
-Example c14_highbyte_outside_domain :
+Example c14_highbyte_refuted :
   let c := fst (add_group [] [mkOpt [99;97;102;233] 0] empty_ctx) in
   matches c [] find_prefix [99;97;102] = [0%nat] /\ find [99;97;102] find_prefix c = Unknown.
 Proof. vm_compute. split; reflexivity. Qed.
